@@ -275,3 +275,25 @@ def check_outputs_statted(ctx, rid, prog):
     ok = bool(heads) and bool(uses) and all(any(h in dom.get(u['_b'], ()) for h in heads) for u in uses)
     ctx.check(rid, ok, scan.name, 'scan:outputs-not-statted-on-every-visit', scan.loc,
               'the per-output stat loop dominates every outputs-dirty computation of the scan (%d loop(s), %d use(s))' % (len(heads), len(uses)))
+
+
+def check_midbuild_targets_scheduled(ctx, rid, prog):
+    """Plan::RefreshDyndepDependents: targets added to the plan while the build is running
+    (AddTarget for the validation nodes a re-scan reports) are followed, before the function
+    succeeds, by a pass that schedules planned edges whose inputs are already ready - nothing else
+    would (ScheduleInitialEdges runs once, NodeFinished only when an input finishes)."""
+    from rules import loops_over
+    from model import ret_value_class
+    f = prog.fn('Plan::RefreshDyndepDependents')
+    adds = [e for e in f.events('call') if e.get('name') in ('Plan::AddTarget', 'Plan::AddSubTarget')]
+    heads = {l['header'] for l in loops_over(f, 'Plan::want_')}
+    def schedules(x):
+        return (x['k'] == 'call' and x.get('name') in ('Plan::ScheduleWork', 'Plan::EdgeMaybeReady', 'Plan::ScheduleInitialEdges')) or \
+            x.get('_b') in heads
+    for e in adds:
+        r = f.find_path(e, lambda x: x['k'] == 'ret' and ret_value_class(prog, f, x) == 'success', is_blocker=schedules)
+        ctx.check(rid, r is None, f.name, 'midbuild-target:never-scheduled', f.where(e),
+                  'a target planned during the build is followed by a scheduling pass over ready edges',
+                  witness=None if r is None else {'blocks': r[0]})
+    if not adds:
+        ctx.inst(rid, f.loc, 'RefreshDyndepDependents plans no new targets')
